@@ -64,6 +64,14 @@ def main():
         envd = dict(os.environ, PYTHONPATH=tree, PYTHONDONTWRITEBYTECODE="1")
         rc0, out0 = sh(["/venv/bin/python", demo], cwd=tempfile.gettempdir(), env=envd, timeout=300)
         res["demo_clean_rc"] = rc0
+        base_keys = {}
+        if meta.get("base_commit"):
+            # pinned to an older commit whose own (since repaired) findings may show: judge by the
+            # violated-clause keys the change ADDS to those of the unchanged base tree
+            for p in props:
+                envc = dict(os.environ, VERIF_REPO=tree, VERIF_JOBS=a.jobs)
+                _, outb = sh([os.path.join(VERIF, "check"), p, "--tier", a.tier, "--no-evidence"], env=envc, timeout=3600)
+                base_keys[p] = {l.split("violated clause:")[1].split(" (x")[0].strip() for l in outb.splitlines() if "violated clause:" in l}
         rc, out = sh(["git", "-C", tree, "apply", os.path.join(seed, "patch.diff")])
         res["applies"] = rc == 0
         if rc != 0:
@@ -79,8 +87,16 @@ def main():
         for p in props:
             envc = dict(os.environ, VERIF_REPO=tree, VERIF_JOBS=a.jobs)
             rcc, outc = sh([os.path.join(VERIF, "check"), p, "--tier", a.tier, "--no-evidence"], env=envc, timeout=3600)
-            keys = [l.strip()[:160] for l in outc.splitlines() if "violated clause" in l][:3]
-            res["checks"][p] = {"rc": rcc, "verdict": {0: "MISSED", 1: "caught", 2: "inconclusive"}.get(rcc, "rc%d" % rcc), "keys": keys}
+            vl = [l.strip() for l in outc.splitlines() if "violated clause:" in l]
+            verdict = {0: "MISSED", 1: "caught", 2: "inconclusive"}.get(rcc, "rc%d" % rcc)
+            if p in base_keys:
+                vl = [l for l in vl if l.split("violated clause:")[1].split(" (x")[0].strip() not in base_keys[p]]
+                if rcc == 1 and not vl:
+                    verdict = "MISSED"
+            keys = [l[:160] for l in vl][:3]
+            res["checks"][p] = {"rc": rcc, "verdict": verdict, "keys": keys}
+            if p in base_keys:
+                res["checks"][p]["keys_of_unchanged_base_commit"] = sorted(base_keys[p])[:6]
     finally:
         sh(["git", "-C", "/repo", "worktree", "remove", "--force", tree])
         shutil.rmtree(tree, ignore_errors=True)
